@@ -1,7 +1,7 @@
 #!/usr/bin/env python3
 """Assembles /verif/DESIGN.md from tools/design_head.md, the rule texts in evidence/*.json (written by the checks),
 tools/claims.json, known_findings.json, seeded/*/meta.json and tools/design_tail.md."""
-import json, os, glob, textwrap
+import re, json, os, glob, textwrap
 V = '/verif'
 props = [json.loads(l) for l in open(V + '/properties.jsonl')]
 claims = json.load(open(V + '/tools/claims.json'))
@@ -92,14 +92,38 @@ for d in sorted(glob.glob(V + '/seeded/*')):
         readme = title[:150]
     det = ', '.join(m.get('detected_by') or []) or '**not detected**'
     nt_ += 1
-    nd_ += 1 if m.get('detected_by') else 0
+    nd_ += 1 if m['property'] in (m.get('detected_by') or []) else 0
+    if m.get('detected_by') and m['property'] not in m['detected_by']:
+        no_ = globals().get('no_', 0) + 1
     out.append('| %s | %s | %s | %s |' % (os.path.basename(d), m['property'], readme.replace('|', '/'), det))
-out += ['', '%d of %d seeded changes are reported by the check of the property they break.' % (nd_, nt_), '']
+out += ['', '%d of %d seeded changes are reported by the check of the property they break; %d more only by the check of another property (listed in the last column); the rest are marked **not detected** and discussed in section 9.' % (nd_, nt_, globals().get('no_', 0)), '']
 ms = sorted(glob.glob(V + '/mutants/C*/*.patch'))
 if ms:
     out.append('Hand-made variants (each reported by its property\'s check): ' + ', '.join(os.path.relpath(m, V) for m in ms) + '.')
     out.append('')
 out.append(open(V + '/tools/design_tail.md').read().rstrip())
 out.append('')
+# ---- refactoring corpus
+refs = sorted(glob.glob(V + '/refactors/*/meta.json'))
+if refs:
+    out += ['### Refactoring corpus: verdict per behaviour-preserving change', '',
+            '| refactoring | what it is (from the sub-agent\'s README) | verdict of the 29 checks |', '|---|---|---|']
+    ns = 0
+    for f in refs:
+        m = json.load(open(f))
+        title = ''
+        rp = os.path.dirname(f) + '/README.md'
+        if os.path.exists(rp):
+            lines = [l.strip() for l in open(rp) if l.strip()]
+            title = next((l.lstrip('# ').strip() for l in lines if l.startswith('#')), lines[0] if lines else '')[:140]
+        v = m['verdict']
+        if v == 'silent':
+            ns += 1
+        else:
+            rules = sorted(set(re.findall(r': (C\d\d\.[A-Za-z0-9/.-]+):', ' '.join(m.get('alarms', [])))))
+            v = '**false alarm**: ' + ', '.join(r for r in rules if '.shared/' not in r)[:160]
+        out.append('| %s | %s | %s |' % (m['id'], title.replace('|', '/'), v))
+    out += ['', '%d of %d refactorings leave all 29 checks silent.' % (ns, len(refs)), '']
+
 open(V + '/DESIGN.md', 'w').write('\n'.join(out))
 print('DESIGN.md written: %d lines' % len(out))
